@@ -313,6 +313,7 @@ def _coerce(a, b):
 
 # ---- "algebra-free" mode for data-flow obligations: products and quotients of two non-constant reals become
 # uninterpreted functions, so queries stay in QF_UFLRA (z3's nonlinear+UF combination returns unknown on them)
+MOD_MODE = ["functional"]   # encoding of real x % m: "functional" (x - m*floor(x/m)) or "witness" (fresh integer quotient, memoised per term)
 NL_UF = [False]
 NL_SIGN = [False]       # with NL_UF: every uninterpreted product comes with the sign rule
 NL_LOG = []
@@ -500,6 +501,21 @@ class SymReal(SymNum):
         mm = lift(float(m))
         if float(m) <= 0:
             raise Unsupported("modulus <= 0")
+        if MOD_MODE[0] == "witness":
+            # x mod m = x - k*m with a fresh integer k and 0 <= result < m; the same input term gets the same k on a path.
+            # Much cheaper for z3 than the functional form, but two different terms for the same value are not related.
+            e = eng()
+            memo = e.__dict__.setdefault("_mod_memo", {})
+            if memo.get("path") != e.cur_path or memo.get("n_paths") != e.n_paths:
+                memo.clear()
+                memo["path"], memo["n_paths"] = e.cur_path, e.n_paths
+            key = (z3.simplify(s.e).get_id(), float(m))
+            if key not in memo:
+                k = e.fresh("modk", "Int")
+                r = s.e - z3.ToReal(k) * mm
+                e.solver.add(r >= 0, r < mm)
+                memo[key] = r
+            return mk(memo[key])
         return mk(s.e - mm * z3.ToReal(z3.ToInt(s.e / mm)))
 
     def __float__(self):
